@@ -127,6 +127,11 @@ def standard_plan(ctx, visitor, depths_quick=(8, 7, 6, 5, 5), depths_thorough=(1
                 for a in (("A013", "Am201") if th else ("A013",)):
                     cfg = dict(N=N, r=r, box=boxes[0])
                     tasks += list(tree_tasks(cfg, a, d, visitor, split=2 if d < 9 else 3, batch=bsz))
+    # a user Problem may hand back a new value holder instead of filling the one it was given
+    for N in ((1, 2, 3) if th else (1, 2)):
+        cfg = dict(N=N, r=2.0, box=boxes[0], holder="fresh")
+        tasks += list(tree_tasks(cfg, "A013", depths[N - 1] - 1, visitor, split=2))
+        tasks += list(tree_tasks(cfg, "A013", depths[N - 1] - 1, visitor, split=2, batch=3))
     if long_runs:
         envs = ("abs13", "const", "lin", "stair")
         for N in ((1, 2, 3) if th else (1, 2)):
@@ -182,6 +187,7 @@ def describe(tasks):
         c = t["cfg"]
         if t["kind"] == "tree":
             key = f"N={c['N']} r={c['r']} box={c.get('box')} V={t['alphabet_name']} depth={t['depth']}" + \
+                  (" holder=fresh" if c.get("holder") else "") + \
                   (f" batch={t['batch']}" if t.get("batch", 1) != 1 else "")
             trees[key] = trees.get(key, 0) + len(t["alphabet"]) ** (t["depth"] - len(t["prefix"]))
         else:
